@@ -429,17 +429,33 @@ fn runtype_union_or_intersection(
 }
 
 fn extract_union(it: &Runtype, named_schemas: &[NamedSchema]) -> Vec<Runtype> {
+    extract_union_following(it, named_schemas, &mut vec![])
+}
+
+/// `following` holds the references being expanded: aliases that are unions of each other
+/// (`type A = B | "x"; type B = A | "y"`) contribute nothing the second time they are met.
+fn extract_union_following(
+    it: &Runtype,
+    named_schemas: &[NamedSchema],
+    following: &mut Vec<RuntypeUUID>,
+) -> Vec<Runtype> {
     match &it.kind {
         RuntypeKind::AnyOf(vs) => vs
             .iter()
-            .flat_map(|it| extract_union(it, named_schemas))
+            .flat_map(|it| extract_union_following(it, named_schemas, following))
             .collect(),
         RuntypeKind::Ref(r) => {
+            if following.contains(r) {
+                return vec![];
+            }
             let v = named_schemas
                 .iter()
                 .find(|it| it.name == *r)
                 .expect("everything should be resolved by now");
-            extract_union(&v.schema, named_schemas)
+            following.push(r.clone());
+            let res = extract_union_following(&v.schema, named_schemas, following);
+            following.pop();
+            res
         }
         RuntypeKind::Never => vec![],
         _ => vec![it.clone()],
